@@ -170,7 +170,7 @@ def worker(ctx):
         try:
             printers, texts = {}, {}
             for g in root.all_files():
-                p = Printer(g, rng=rng, comments=0.4, blanks=0.4, semi=0.3)
+                p = Printer(g, rng=rng, comments=0.4, blanks=0.4, semi=0.3, typedef=0.0)
                 p.render()
                 texts[g.filename] = join_first_lines(p) if (g is root and case_id % 2 == 0) else "\n".join(p.lines) + "\n"
                 printers[g.basename] = p
